@@ -167,6 +167,19 @@ def components(r, n):
                             lambda waw=waw, wdw=wdw, gran=gran, fs=fs: wishbone.Arbiter(
                                 addr_width=waw, data_width=wdw, granularity=gran, features=fs),
                             "bus", "wishbone.Signature", {"aw": waw, "dw": wdw, "gran": gran, "feat": feat}, "initiator"))
+    # corners, independent of the seed: zero / one address bits with granularity equal to and below the data width
+    for waw in (0, 1):
+        for wdw, gran in ((8, 8), (32, 32), (32, 8), (64, 16)):
+            for feat in ({f: 0 for f in FEATS}, {f: 1 for f in FEATS}):
+                fs = {Feature(f) for f in FEATS if feat[f]}
+                out.append((f"wishbone.Decoder aw={waw} dw={wdw} gran={gran} feat={sorted(f for f in feat if feat[f])}",
+                            lambda waw=waw, wdw=wdw, gran=gran, fs=fs: wishbone.Decoder(
+                                addr_width=waw, data_width=wdw, granularity=gran, features=fs),
+                            "bus", "wishbone.Signature", {"aw": waw, "dw": wdw, "gran": gran, "feat": feat}, "target"))
+                out.append((f"wishbone.Arbiter aw={waw} dw={wdw} gran={gran} feat={sorted(f for f in feat if feat[f])}",
+                            lambda waw=waw, wdw=wdw, gran=gran, fs=fs: wishbone.Arbiter(
+                                addr_width=waw, data_width=wdw, granularity=gran, features=fs),
+                            "bus", "wishbone.Signature", {"aw": waw, "dw": wdw, "gran": gran, "feat": feat}, "initiator"))
     return out
 
 
